@@ -17,6 +17,11 @@ CHECKS = {
    technique="stateless exhaustive exploration of the real lexer/parser over the full input trie (character classes to length N, line templates to L lines)",
    text="Every string over the 10 (thorough: 11) deb822 character classes up to length 6 (thorough 8), every sequence of 16 line templates x 3 terminators up to 2/3 lines and x LF up to 4/5 lines, and every lexer-mode witness x every ASCII / sample non-ASCII character is executed on the real strict, tolerant and Read-based readers and the lexer; the printed tree, the strict/tolerant agreement and the token partition are compared with the input itself. Exhaustive within the bound, so any lexer-mode x class or parser-recovery defect reachable by such a string is found; beyond the bound the argument is finite control + data independence.",
    note="Class abstraction validated against the implementation per run (class_validation block). Strings longer than the bound are not explored."),
+ "C02": dict(
+   category="model_checking", design_ref="DESIGN.md §3 C02, §2.3, §2.6",
+   technique="stateless exhaustive exploration of 60 real text-parsing entry points over full input tries (native character-class alphabets to length N, token/line sequences), pumped inputs under a loop-tick budget, allocation cap and stall watchdog, and k-deviation corrupted typed documents",
+   text="For each of 60 entry points (deb822 documents/paragraphs, relationship fields, control/apt/changes/buildinfo/removal files, copyright, DEP-3, APT sources, PGP unwrapping, VCS fields, identities and every typed field value): every string over its native character-class alphabet up to length 5/4/4 (thorough 6/5/5; 84M calls), every sequence of its line templates or tokens up to 2-3 (thorough 3-4) symbols, pumped inputs w^k (all w to length 2-3, k up to 64/512), unbalanced nests and 20-100 kB single lines, and for typed documents the all-valid document with <= 1 (thorough 2) fields absent or replaced by 7 garbage values. Every call must return Ok or Err: a panic, a parser loop exceeding the quadratic tick budget, the 2 GiB allocation cap, a 60 s stall or 10 s on a pumped input is a violation.",
+   note="Dependencies (regex, url, chrono, debversion, rowan) carry no tick sites: hangs there are caught by watchdog/time limit only. The polynomial-time clause is decided against a fixed quadratic envelope (DESIGN §5)."),
  "C03": dict(
    category="exploration", design_ref="DESIGN.md §3 C03, §2.4",
    technique="bounded exhaustive enumeration (all layout vectors with <= k deviations per PxF skeleton) of generated documents carrying their intended reading, executed on the real strict reader",
